@@ -75,7 +75,9 @@ CLAIMED = {
              "(Reshuffle, stored ids, GidIsPosition) is part of the model and compared with the font; a negative configuration must be violated.  TLC found "
              "the tidy defect (donor repainted); the grid found two OT-SVG gradient defects; all fixed in /repo.  DisjointSet.tla (the union-find "
              "behind the grouping, statement by statement) is model-checked, replayed call by call into the real class, and the calls recorded "
-             "during the real builds are validated against it (DisjointSetTrace, B2); nested opacity groups in every closing position.",
+             "during the real builds are validated against it (DisjointSetTrace, B2); nested opacity groups in every closing position.  GradCache.tla "
+             "(the per-document gradient-id cache: key = gradient + residual transform, reset per document; HrefsClosed, SameGradient, DefinedOnce, "
+             "IdsUnique, two negative configurations) is model-checked and its scenarios built into real fonts and judged by the same oracle.",
         note="Trusted: TLC; lxml; the OT-SVG oracle (SVG 1.1 subset: g, path, use, defs, basic shapes, fill inheritance, opacity, gradients), "
              "itself compared with resvg on the documents of real builds at the start of every run.",
         technique="TLA+ model of the document assembly protocol checked by TLC; spec-to-code replay with structural projection and an independent OT-SVG renderer; code-to-spec trace validation of the grouping (DisjointSetTrace.tla)",
@@ -85,7 +87,10 @@ CLAIMED = {
         text="Flatten.tla (Paint.breadth_first as a FIFO frontier over Composite -> ColrLayers -> leaves, reuse wrappers visited before their "
              "PaintGlyph) is model-checked for EachLeafOnce and ZOrderWhenFlat over every forest of <=4 leaves; each forest is concretised and built as "
              "COLRv0 and the emitted layer order compared with the model (0 drift); group-free solid sources are compared layer by layer incl. "
-             "palette colour/alpha and base-glyph extents; random scenarios in glyf / glyf_colr_0 / cff_colr_0 / cff2_colr_0 for 'each outline exactly once'.",
+             "palette colour/alpha and base-glyph extents; random scenarios in glyf / glyf_colr_0 / cff_colr_0 / cff2_colr_0 for 'each outline exactly once'.  "
+             "PathPen.tla (svg_path.draw_svg_path statement by statement and SVGPathPen as its inverse: PenProtocol, Denotes, ClosedIffZ, NothingDropped, "
+             "RoundTrip; negative configuration without picosvg's normal form) is model-checked over every command sequence of <=6 and every behaviour "
+             "replayed into the real functions.",
         note="Trusted: TLC; fontTools glyph sets; the layer oracle.  'Places' = sampled overlap >= 60% in a one-to-one matching.",
         technique="TLA+ model of the breadth-first flattening checked by TLC; spec-to-code replay with geometric layer matching",
         design_ref="DESIGN.md §4.2, §5 C03",
